@@ -294,6 +294,10 @@ def run(ctx):
 
     # ---- documents
     docs = C17.gen_docs(ctx, ctx.scale(500, 4000), ctx.scale(600, 5000), ctx.scale(800, 6000))
+    # >>> a_dom (wave 4): wide objects (many duplicate keys) and deep documents
+    from props import C17_iter, C16_text
+    docs = docs + C17_iter.extra_docs(ctx, ctx.scale(40, 400), ctx.scale(40, 400))
+    # <<<
     ctx.count("documents", len(docs))
     parsed = C17.parse_docs(ctx, docs)
     # DOM views (implementation) of every node: what the content oracle compares the JSON with
@@ -464,6 +468,9 @@ def run(ctx):
                 if unwrap_op(e[1][1], f[1]) is None:
                     fail("content-op", "KeyValuePairs: operator of field %d lost" % i); break
 
+    # >>> a_dom (wave 4): the exact text of the three entry points vs the printer model, text-level oracles
+    C16_text.run_text(ctx, parsed, out)
+    # <<<
     # ---- the text itself: valid UTF-8, valid JSON for an independent parser
     tcases = []
     for m, (o, c) in out.items():
